@@ -10,6 +10,9 @@ import Amqp.Gen.Uri
   correspondence: `str.find/partition/rpartition/replace/lstrip/lower`, `urllib.parse.urlsplit`,
   `urlparse` (`;params`), the `username/password/hostname/port` accessors, `unquote` (percent
   decoding + UTF-8 with replacement), `parse_qsl`, `int(str)`, and `quote(s, safe='')` for `render`.
+  Which parser `__init__` calls (`urlparse` or `urlsplit`) is extracted too (`Gen.Uri.cutsParams`).
+  `utf8DecSt` and `unquoteBytesAux` recurse on the immediate tail only, so `decide` evaluates them
+  in linear time (nested-pattern recursion made kernel evaluation exponential).
 
   Not modelled (explicit `Err.outOfModel`, never a silent default): NFKC check of a non-ASCII netloc,
   `int()` of text with non-ASCII characters.  The syntax check of a bracketed host
